@@ -316,6 +316,10 @@ func RunScript(c *ScriptCase) *ScriptOutcome {
 			evs := s.Burst
 			go func() {
 				for _, b := range evs {
+					if b.Kind == "clock" {
+						in.Clock.Add(time.Duration(b.ClockS) * time.Second)
+						continue
+					}
 					in.P.ConsumeEvent(toEvent(*b.Ev))
 				}
 				close(done)
@@ -332,10 +336,13 @@ func RunScript(c *ScriptCase) *ScriptOutcome {
 			}
 			var exp []string
 			for _, b := range evs {
+				hist = append(hist, b)
+				if b.Ev == nil {
+					continue
+				}
 				o := m.Event(*b.Ev)
 				exp = append(exp, o.Requests...)
 				out.Fired = append(out.Fired, o.Fired...)
-				hist = append(hist, b)
 			}
 			sort.Strings(exp)
 			got := takeNew()
